@@ -79,7 +79,9 @@ def run(ctx):
         do_case(ctx, {"ast": a, "I": I})
     n_models = (250 if ctx.quick else 1500) * (3 if ctx.search else 1)
     for _ in range(n_models):
-        a, o, t = gen_valid(ctx.rng, ctx.quick, prefix_p=0.2)
+        a, o, t = gen_valid(ctx.rng, ctx.quick, prefix_p=0.2, empty_p=0.04)
+        if ctx.rng.random() < 0.12:
+            a, o, t = gen_valid_signed_sum(ctx.rng)     # explicit signs against thresholds of either sign, leaves around zero
         for _ in range(4):
             # values may lie outside a leaf's declared bounds: the interpretation wins (variable.evaluate's documented behaviour)
             I = gen_interp(ctx.rng, t, total=True, ranges=False, in_bounds=ctx.rng.random() < 0.6)
